@@ -305,7 +305,7 @@ static void ev_op(int argc, char** w) {
     rc = uv_fs_event_start(eh[h].p, ecbs[f], path, 0);
     printf("ret %d a=%d\n", rc, uv_is_active((uv_handle_t*) eh[h].p));
   } else if (!strcmp(w[0], "stop") && argc == 2) {
-    if (eh[h].closed) { printf("misuse\n"); return; }
+    if (eh[h].closing) { printf("misuse\n"); return; }   /* (legal no-op until close_cb; after it the memory is gone) */
     int rc = uv_fs_event_stop(eh[h].p);
     printf("ret %d a=%d\n", rc, uv_is_active((uv_handle_t*) eh[h].p));
   } else if (!strcmp(w[0], "close") && argc == 2) {
